@@ -168,7 +168,7 @@ func Exp10(d Decimal) Decimal {
 			exp--
 		}
 
-		if dSigInt > maxUnbiasedExponent+58 {
+		if dSigInt > exponentBias+58 {
 			if d.Signbit() {
 				return zero(false)
 			}
@@ -198,12 +198,6 @@ func Exp10(d Decimal) Decimal {
 
 	if dSigInt != 0 {
 		sigInt = uint128{1, 0}
-
-		for dSigInt > maxUnbiasedExponent {
-			sigInt = sigInt.mul64(10)
-			dSigInt--
-		}
-
 		expInt = int16(dSigInt)
 	}
 
@@ -228,12 +222,12 @@ func Exp10(d Decimal) Decimal {
 		}
 	} else {
 		res = decomposed192{
-			sig: uint192{1, 0, 0},
+			sig: uint192{sigInt[0], sigInt[1], 0},
 			exp: expInt,
 		}
 	}
 
-	if res.exp > maxUnbiasedExponent+58 {
+	if res.exp > exponentBias+58 || (!d.Signbit() && res.exp > maxUnbiasedExponent+58) {
 		if d.Signbit() {
 			return zero(false)
 		}
